@@ -43,7 +43,10 @@ def replay(ctx, cfg, events, ops, expected, mres, props):
             ctx.fail({"events": events, "ops": [], "step": -1}, "parsed tree is not consistently linked: " + bad[0], bad[:5])
             return
     if mres is not None:
-        d = compare_states(forest, mres[0])
+        if not mres[0][1]:
+            ctx.disagree("Spec.Tree.consistent_b holds on the parsed model heap", {"events": events}, None, 0)
+            return
+        d = compare_states(forest, mres[0][0])
         if d:
             ctx.disagree("parse-time linking ~ Model.Build.feed", {"events": events}, d[:4], None)
             return
@@ -55,7 +58,10 @@ def replay(ctx, cfg, events, ops, expected, mres, props):
             return
         mstate = None
         if mres is not None:
-            mstatus, mstate = mres[k + 1]
+            mstatus, mstate, mchk = mres[k + 1]
+            if not mchk:
+                ctx.disagree("Spec.Tree.consistent_b (rep of the forest read off the child lists) holds after the call", case, None, 0)
+                return
             probs = forest.sync(mstate)
             if probs:
                 ctx.disagree("elements created by the call ~ model allocation", case, probs[:3], None)
